@@ -101,6 +101,7 @@ template <class C> void Exec<C>::exec_parse(int i, const Op& op, OpOut& o) {
     if (d < 0 || d >= N_USLOTS) return;
     o.skipped = false;
     if (!vacate(i, d)) { o.aborted = true; return; }
+    BreakGuard bg(*this, op, op.mgr);
     MgrInst& m = mgr_of(op.mgr);
     int entry = op.entry < 0 ? 0 : op.entry % 6;
     if (m.kind != MK_LIBC) entry = 5;
@@ -206,6 +207,7 @@ template <class C> void Exec<C>::exec_resolve(int i, const Op& op, OpOut& o, boo
     o.skipped = false;
     if (!vacate(i, d)) { o.aborted = true; return; }
     if (!uri_ok(r) || !uri_ok(b)) { o.skipped = true; return; }   // vacating d made an operand stale
+    BreakGuard bg(*this, op, op.mgr);
     MgrInst& m = mgr_of(op.mgr);
     int entry = op.entry < 0 ? 0 : op.entry % (add ? 3 : 2);
     if (m.kind != MK_LIBC) entry = add ? 2 : 1;
@@ -272,12 +274,13 @@ template <class C> void Exec<C>::exec_inplace(int i, const Op& op, OpOut& o, boo
     if (!uri_ok(s)) return;
     o.skipped = false;
     USlot& sl = us[s];
-    bool reject = mgr_of(op.mgr).kind == MK_INCOMPLETE;
-    int mi = reject ? op.mgr : sl.mgr;
+    int mi = mgr_of(op.mgr).kind == MK_INCOMPLETE ? op.mgr : sl.mgr;
+    BreakGuard bg(*this, op, mi);
+    bool reject = mgr_of(mi).kind == MK_INCOMPLETE;
     MgrInst& m = mgr_of(mi);
     int entry = op.entry < 0 ? 0 : op.entry % (normalize ? 3 : 2);
     if (m.kind != MK_LIBC) entry = normalize ? 2 : 1;
-    unsigned mask = normalize ? (entry == 0 ? 63u : (unsigned)(op.opt & 63)) : 0;
+    unsigned mask = normalize ? (entry == 0 ? 63u : (op.opt > 63 ? (unsigned)op.opt : (unsigned)(op.opt & 63))) : 0;
     Uri* u = sl.u;
     UriView before = view(u);
     (void)0;
@@ -359,7 +362,7 @@ template <class C> void Exec<C>::exec_tostring(int i, const Op& op, OpOut& o) {
             int n = 0;
             // every capacity; for long texts (rare) both ends and 64 seeded capacities in between
             std::vector<int> caps;
-            if (req <= 256) for (int cap = -2; cap <= req + 3; cap++) caps.push_back(cap);
+            if (req <= 256) { for (int cap = -2; cap <= req + 3; cap++) caps.push_back(cap); if ((plan.run_seed >> 11) % 8 == 0) { caps.push_back(0x7fffffff); caps.push_back(1 << 29); caps.push_back((1 << 30) + 7); caps.push_back(65536); } }
             else {
                 std::set<int> cs; Rng cr(plan.run_seed ^ (unsigned long long)(i * 7919 + 13));
                 for (int k = -2; k <= 10; k++) cs.insert(k);
@@ -537,7 +540,7 @@ template <class C> void Exec<C>::exec_query(int i, const Op& op, OpOut& o) {
             int hi = op.cap == CAP_ALL ? required + 2 : lo;
             // true length is only known after a successful compose; do the ample one first
             std::vector<int> caps; caps.push_back(required + 1);
-            if (hi - lo <= 260) { for (int c = lo; c <= hi; c++) if (c != required + 1) caps.push_back(c); }
+            if (hi - lo <= 260) { for (int c = lo; c <= hi; c++) if (c != required + 1) caps.push_back(c); if (op.cap == CAP_ALL && (plan.run_seed >> 11) % 8 == 0) { caps.push_back(0x7fffffff); caps.push_back(1 << 29); caps.push_back(65536); } }
             else {   // long list (rare): both ends and 64 seeded capacities in between
                 std::set<int> cs; Rng cr(plan.run_seed ^ (unsigned long long)(i * 7919 + 17));
                 for (int k = lo; k <= lo + 10; k++) cs.insert(k);
@@ -550,6 +553,7 @@ template <class C> void Exec<C>::exec_query(int i, const Op& op, OpOut& o) {
                 for (int w = 0; w < (op.cap == CAP_ALL ? 2 : 1) && !g.abort_run; w++) {
                     bool with_written = op.cap == CAP_ALL ? w != 0 : true;
                     int alloc_chars = cap > 0 ? cap : 0;
+                    if (cap > required + 4096) alloc_chars = required + 8;   // "no limit" stated, the buffer really holds what is needed
                     Guarded gb = guarded_buf((size_t)alloc_chars);
                     C* dest = gb.buf;
                     int* written = nullptr;
@@ -578,6 +582,7 @@ template <class C> void Exec<C>::exec_query(int i, const Op& op, OpOut& o) {
             o.rc = have_text ? 0 : (int)rc; o.reqs = ncalls;
         } else {
             if (!release_str(q, s)) { unprotect(pr); o.aborted = true; return; }
+            BreakGuard bg(*this, op, op.mgr);
             C** out = (C**)arena_alloc(A_OBJ, sizeof(C*), 8, P_RW); *out = (C*)(uintptr_t)0x2222; arena_alloc(A_OBJ, 16, 1, perm(0, RS_REDZONE));
             for (int attempt = 0; attempt < 2; attempt++) {
                 FaultPlan fp = attempt == 0 ? fault_of(op) : FaultPlan();
@@ -627,6 +632,7 @@ template <class C> void Exec<C>::exec_query(int i, const Op& op, OpOut& o) {
         if (op.b >= 0) { if (op.b >= N_QSLOTS || !qs[op.b].has_composed) return; src = qs[op.b].composed; }
         o.skipped = false;
         if (!release(q, s)) { o.aborted = true; return; }
+        BreakGuard bg(*this, op, op.mgr);
         MgrInst& m = mgr_of(op.mgr);
         int entry = op.entry < 0 ? 0 : op.entry % 3;
         if (m.kind != MK_LIBC) entry = 2;
